@@ -53,6 +53,7 @@ def ctor_table(ctx):
                     continue
                 case = {"ctor": [repr(mx), repr(mn), repr(qs)]}
                 name = "vfctor%d_%d" % (ctx.shard, n)
+                pre = set(threading.enumerate())
                 try:
                     pool = tp.ThreadPool(mx, mn, queue_size=qs, timeout=0.01, logname=name)
                     out = ("ok", pool)
@@ -92,7 +93,8 @@ def ctor_table(ctx):
                 eff_min = min(max(int(mn), 0), eff_max)
                 pool.start()
                 time.sleep(0.035)
-                alive = len([t for t in threading.enumerate() if t.name.startswith(name + "-")])
+                # the pool's workers = threads that appeared since the pool was built (names are not API)
+                alive = len([t for t in threading.enumerate() if t not in pre])
                 gate = threading.Event()
                 lock = threading.Lock()
                 inside = [0, 0]
